@@ -424,3 +424,57 @@ Proof.
     destruct Hx as [<-|[<-|[]]]; cbn in Hp |- *; [|exfalso; now apply Hp].
     destruct Hc as [<-|[<-|[]]]; cbn; auto.
 Qed.
+
+(* (6) ONE tree write racing ONE ACL record (Model/AclKeysTree.v, harness cmd/c05/ilv.go: the record is applied to the
+   writer's ACL list at every crossing of the ACL lock during one AddContent).  The model has no lock structure: the
+   scheduler's only freedom is whether the write is sequenced before the record (it names the old head and generation),
+   after it (new head and generation; only if the record landed during the call and the writer may still write), or
+   fails (only if the record landed during the call or the writer had no right; an account that may write after the
+   record then writes sequentially).  Whatever it decides, what the model presents satisfies the predicate and passes
+   the correspondence test. *)
+Theorem c05_ilv_model_satisfies_spec : forall s,
+  is_valid s = true -> rounds_wf [] (is_pre s ++ [is_last s]) ->
+  spec_C05_ilv (model_ilv s) = true /\ ilv_model_ok (model_ilv s) = true.
+Proof. exact ilv_model_satisfies_spec. Qed.
+Print Assumptions c05_ilv_model_satisfies_spec.
+
+(* what the predicate demands of ANY observed race with a stored change: the change names the generation of the ACL
+   head it names and its ciphertext opens with that generation's tree key and with no other one - a change labelled
+   with the new generation but encrypted under the retired key is refused, not sequenced away *)
+Theorem c05_ilv_written_under_named_head : forall x w,
+  spec_C05_ilv x = true -> i_write x = Some w ->
+  exists g, named_gen x = Some g /\ w_key_id w = g /\ w_opens w = [g].
+Proof. exact ilv_written_under_named_head. Qed.
+Print Assumptions c05_ilv_written_under_named_head.
+
+(* owner 1, writer 2, reader 3 under generation 1, one change written; then "remove 3" (generation 5) races writer 2's
+   AddContent.  The three decisions of the scheduler; after "before" the removed account 3 (holding generation 1 only)
+   still reads both changes, after "after" only the first.  The observation of a change that names head / generation 5
+   but opens with generation 1 only (the retired key) is refused. *)
+Example c05_ilv_nonvacuous :
+  let pre := [mkRS 1 [1] [(1, 1)] []] in
+  let rd := [(1, 1, [1; 5]); (2, 3, [1; 5]); (3, 0, [1])] in
+  let mk d := mkIS 2 1 true 1 5 true true d 2 3 2 [1; 5] pre rd in
+  (forall d, is_valid (mk d) = true /\ rounds_wf [] (is_pre (mk d) ++ [is_last (mk d)])) /\
+  map (fun d => map (fun r => (r_acct r, r_open_ok r, r_open_got r)) (i_readers (model_ilv (mk d)))) [IBefore; IAfter; IFail]
+    = [[(1, true, [1; 2]); (2, true, [1; 2]); (3, true, [1; 2])];
+       [(1, true, [1; 2]); (2, true, [1; 2]); (3, false, [1])];
+       [(1, true, [1; 3]); (2, true, [1; 3]); (3, false, [1])]] /\
+  (let x := model_ilv (mk IAfter) in
+   spec_C05_ilv (mkI (i_kind x) (i_k x) (i_fired x) (i_gen0 x) (i_gen1 x) (i_can0 x) (i_can1 x) 1
+                     (Some (mkW 2 2 5 5 false [1; 5] [1])) None (i_pre x)
+                     [mkR 1 1 [1; 5] false [1] None; mkR 2 3 [1; 5] false [1] None; mkR 3 0 [1] false [1] None]) = false
+   /\ spec_C05_ilv (mkI (i_kind x) (i_k x) (i_fired x) (i_gen0 x) (i_gen1 x) (i_can0 x) (i_can1 x) 1
+                     (Some (mkW 2 2 1 5 false [1; 5] [1])) None (i_pre x) (i_readers x)) = false).
+Proof.
+  cbv zeta. split; [|split; [vm_compute; reflexivity|split; vm_compute; reflexivity]].
+  intros d. split; [destruct d; reflexivity|].
+  destruct d; cbn [is_pre is_last is_dec is_gen0 is_gen1 is_tried is_idx is_retry_idx is_author is_readers is_can1 app
+                   rounds_wf rs_gen rs_tried rs_writes rs_readers written map tc_idx fst snd].
+  all: repeat split; try (repeat constructor; cbn; intuition discriminate); try (cbn; tauto).
+  all: intros x Hx Hp c Hc; cbn in Hx, Hc;
+       repeat match goal with
+              | H : _ \/ _ |- _ => destruct H as [H|H]
+              | H : False |- _ => destruct H
+              end; subst; cbn in Hp |- *; auto; exfalso; now apply Hp.
+Qed.
